@@ -28,7 +28,7 @@ import (
 	"math/rand"
 	"os"
 	"runtime"
-	"runtime/pprof"
+	"sync"
 	"time"
 
 	"verifharness/lib/evid"
@@ -53,6 +53,25 @@ func phase(name string) {
 	}
 	phaseName, phaseStart = name, now
 	rep.Extra("phase_seconds", phaseT)
+}
+
+var (
+	sampleMu sync.Mutex
+	sampleN  = map[string]int{}
+)
+
+// sampleKind keeps at most max samples of one kind so that the evidence shows
+// one written-out case of every workload.
+func sampleKind(kind string, max int, v any) {
+	sampleMu.Lock()
+	ok := sampleN[kind] < max
+	if ok {
+		sampleN[kind]++
+	}
+	sampleMu.Unlock()
+	if ok {
+		rep.Sample(v)
+	}
 }
 
 func replay() {
@@ -131,7 +150,6 @@ func replay() {
 		fmt.Println("unknown case kind", wrap.Kind)
 		os.Exit(3)
 	}
-	pprof.StopCPUProfile()
 	rep.Finish()
 }
 
@@ -151,11 +169,6 @@ func main() {
 	if rep.ReplayFile != "" {
 		replay()
 	}
-	if pf := os.Getenv("C16_PROF"); pf != "" {
-		f, _ := os.Create(pf)
-		pprof.StartCPUProfile(f)
-		defer pprof.StopCPUProfile()
-	}
 
 	rng := rand.New(rand.NewSource(rep.Seed))
 	seed := rng.Uint64()
@@ -168,7 +181,6 @@ func main() {
 			lengths = append(lengths, n)
 		}
 		rng.Shuffle(len(lengths), func(i, j int) { lengths[i], lengths[j] = lengths[j], lengths[i] })
-		rep.Exhaustive(false)
 	} else {
 		lengths = quickLengths(rng, 900)
 	}
@@ -268,6 +280,5 @@ func main() {
 	if rep.Get("malformed_rejected_length_le_12") == 0 || rep.Get("malformed_rejected_short_body") == 0 {
 		rep.Inconclusive("no malformed stream was rejected")
 	}
-	pprof.StopCPUProfile()
 	rep.Finish()
 }
